@@ -204,7 +204,7 @@ def body():
                         A_op = A.weak_form()
                         Sys = np.asarray(Wd)
                         b_vec = projections_from_grid_functions_list(b, A.dual_to_range_spaces) if c["blocked"] else b.projections(A.dual_to_range)
-                    if np.abs(b_vec - Sys.dot(truth)).max() > 1e-10 * max(1e-12, np.abs(Sys.dot(truth)).max()):
+                    if not (np.abs(b_vec - Sys.dot(truth)).max() <= 1e-10 * max(1e-12, np.abs(Sys.dot(truth)).max())):   # NaN counts as a deviation
                         fail("rhs_layout", "the right-hand side vector of A*f is not (system matrix) . f")
                         continue
                     ref_res = []
@@ -219,7 +219,7 @@ def body():
                         fail("count", "iteration count %s, SciPy on the same system with the same settings ran %d iterations" % (rec["count"], len(ref_res)))
                     if "residuals" in rec and (len(rec["residuals"]) != len(ref_res) or (ref_res and np.abs(np.array(rec["residuals"]) - np.array(ref_res)).max() > 1e-9 * max(ref_res))):
                         fail("residuals", "recorded residuals differ from those of the iteration that was run (%d values, reference %d)" % (len(rec["residuals"]), len(ref_res)))
-                    if np.abs(x - xr.ravel()).max() > 1e-10 * max(1.0, np.abs(xr).max()):
+                    if not (np.abs(x - xr.ravel()).max() <= 1e-10 * max(1.0, np.abs(xr).max())):   # NaN counts as a deviation
                         fail("solution", "solution differs from SciPy's on the same system by %.3g" % np.abs(x - xr.ravel()).max())
                     if info == 0 and r > tol * 1.0001:
                         fail("tolerance", "info = 0 but the true relative residual is %.3g > tol %g" % (r, tol))
@@ -267,7 +267,7 @@ def body():
                 if info != infos or cnt != cb.n or len(res_) != cnt:
                     chk.violation("gmres:%s:settings" % ("blocked" if blocked else "single"), "%s: info %s after %d iterations (%d residuals), SciPy with the same settings on the same system: info %s after %d iterations" % (
                         label, info, cnt, len(res_), infos, cb.n), {"restart": restart, "maxiter": maxiter, "blocked": blocked})
-                elif np.abs(x - xs).max() > 1e-12 * max(1.0, np.abs(xs).max()):
+                elif not (np.abs(x - xs).max() <= 1e-12 * max(1.0, np.abs(xs).max())):   # NaN counts as a deviation
                     chk.violation("gmres:%s:settings" % ("blocked" if blocked else "single"), "%s: solution differs from SciPy's on the same system by %.3g" % (label, np.abs(x - xs).max()), {"restart": restart, "maxiter": maxiter})
         except Exception as exc:
             chk.violation("gmres:settings:exception", "%s: %s" % (type(exc).__name__, str(exc)[:200]), {"blocked": blocked})
@@ -295,7 +295,7 @@ def body():
                             label, [len(f.coefficients) for f in sol], [s_.global_dof_count for s_ in order]), {})
                         continue
                     e_ = np.abs(np.concatenate([f.coefficients for f in sol]) - truth).max()
-                    if e_ > 1e-8 * max(1.0, np.abs(truth).max()):
+                    if not (e_ <= 1e-8 * max(1.0, np.abs(truth).max())):   # NaN counts as a deviation
                         chk.violation("dual_spaces:accuracy", "%s: solution differs from f by %.3g" % (label, e_), {})
     except Exception as exc:
         chk.violation("dual_spaces:exception", "%s: %s" % (type(exc).__name__, str(exc)[:200]), {})
@@ -314,7 +314,7 @@ def body():
                 sol = solve()
                 x = np.concatenate([f.coefficients for f in sol])
                 e_ = np.abs(x - want).max() / max(1.0, np.abs(want).max())
-                if e_ > 1e-8:
+                if not (e_ <= 1e-8):   # NaN counts as a deviation
                     chk.violation("rhs_dtype:%s" % name.split(" ")[0], "%s: solution differs from the solution of the stacked system by %.3g (an imaginary part was dropped?)" % (label, e_), {"dtypes": dts})
     except Exception as exc:
         chk.violation("rhs_dtype:exception", "%s: %s" % (type(exc).__name__, str(exc)[:200]), {})
